@@ -47,7 +47,12 @@ var c10Files = map[string]string{
 	"failreq.vuego":      `<template include="req.vuego"></template>`,
 	"req.vuego":          `<template :required="zz"><i>{{ zz }}</i></template>`,
 	"tpl.vuego":          `<template :n="a"><p>{{ n }}</p></template><p>{{ n }}</p><template v-keep :m="b"><i>{{ m }}</i></template>`,
-	"vhtml.vuego":        `<div v-html="h"></div><p v-text="h"></p><pre v-pre>{{ a }}</pre>`,
+	// the elements with 3 and 5 attributes have spare capacity in the parsed attribute list (the tokenizer grows it 1, 2, 4, 8): an
+	// append to an aliased list would land in the cached node's array
+	// conditions whose operands change their dynamic Go type from one render to the next (int / float64 / int64 / uint8; string / nil / absent)
+	"types.vuego": `<p v-if="c == 3">three</p><p v-else>not three</p><i v-if="a != 'x'">nx</i><b :class="{on: c == 3}" v-show="c != 0">{{ c == 3 }}</b><u :data-e="c == 3">{{ a == 'x' }}</u>`,
+	"vhtml.vuego": `<div v-html="h"></div><p v-text="h"></p><pre v-pre>{{ a }}</pre><div class="box" id="main" v-html="a"></div>` +
+		`<p class="k" id="t" data-q="1" lang="en" v-text="b"></p><section class="s" title="t" v-html="b"></section><q class="c" id="i" lang="x" data-a="1" v-text="a"></q>`,
 	"map.vuego":          `<i v-for="v in one">{{ v }}</i><p>{{ m.k }} {{ m.l[1] }}</p>`,
 }
 
@@ -64,6 +69,15 @@ func c10Data(variant int) func() map[string]any {
 		if variant == 3 {
 			return map[string]any{} // a static page rendered without data
 		}
+		switch variant {
+		case 4:
+			d["c"], d["a"] = float64(3), nil
+		case 5:
+			d["c"] = int64(3)
+			delete(d, "a")
+		case 6:
+			d["c"], d["a"] = uint8(0), "y"
+		}
 		return d
 	}
 }
@@ -72,6 +86,14 @@ func c10Progs() []c10Prog {
 	var out []c10Prog
 	for _, f := range []string{"attrs", "style", "loop", "chain", "inc", "once", "filters", "fm", "layouted", "fmset", "nest", "fail", "failinc", "failmid", "failtext", "failreq", "tpl", "vhtml", "map"} {
 		for v := 0; v < 4; v++ {
+			out = append(out, c10Prog{fmt.Sprintf("%s/%d", f, v), f + ".vuego", c10Data(v)})
+		}
+	}
+	for _, f := range []string{"types", "chain"} {
+		for v := 0; v < 7; v++ {
+			if f == "chain" && v < 4 {
+				continue
+			}
 			out = append(out, c10Prog{fmt.Sprintf("%s/%d", f, v), f + ".vuego", c10Data(v)})
 		}
 	}
